@@ -2,6 +2,7 @@
 record-after-success, error discipline, registry-key normalisation, first-touch truncation,
 environment reads, recursion guard, walk completeness, path agreement, exportability check.
 Every function takes the analysed crate and returns a common.Result."""
+import json
 import re
 
 from vlib.common import Result
@@ -1011,4 +1012,104 @@ def type_arg_discipline_rule(crate, prop, rule="C11.R8"):
                 r.fail(prop, "type-argument-changed %s -> %s" % (p0, p.split("::")[-1]),
                        "%s calls %s with `%s`; imports are computed on `%s`" % (p0, p, a0, exc), fl, l)
     r.floor = 20
+    return r
+
+
+FS_QUERY = r"(Path|PathBuf)::(canonicalize|exists|try_exists|metadata|symlink_metadata|read_link|is_file|is_dir|is_symlink|read_dir)$|std::fs::(canonicalize|metadata|symlink_metadata|read_link|read_dir|read_to_string|read|exists)$"
+
+
+def fs_query_owner_rule(crate, prop, rule="C06.R9"):
+    """who may look at the file system: the writer, under the lock.  Everything that *computes* a path or decides *whether* to
+    write must be a function of its arguments, the environment variable and the working directory."""
+    r = Result(rule, "no function of the exporter or TS default method queries the file system (canonicalize, exists, metadata, read_link, read_to_string, ..) except export_and_merge, which reads the file it is about to merge into under the registry lock: paths and the decision to write do not depend on what is already on disk")
+    OWNERS = {"export::export_and_merge"}
+    n = 0
+    for b in crate.bodies:
+        p0 = re.sub(r"::\{closure#\d+\}", "", b.path)
+        if not (p0.startswith("export::") or p0.startswith("TS::")):
+            continue
+        for blk, t in b.calls():
+            if b.is_cleanup(blk) or not t.get("fn"):
+                continue
+            if fn_matches(t, FS_QUERY):
+                n += 1
+                ok = p0 in OWNERS
+                f, l = M.user_span(t["span"])
+                r.inst(fn=b.path, callee=t["fn"]["path"], where="%s:%s" % (f, l), owner=ok)
+                if not ok:
+                    r.fail(prop, "filesystem-queried-outside-writer %s -> %s" % (p0, t["fn"]["path"].split("::")[-1]),
+                           "%s calls %s: a path, a registry key or the decision to write now depends on what exists on disk (e.g. a symlinked directory that is created by the first export resolves differently from the second export on; a stale file makes the first export a no-op that is never registered)" % (p0, t["fn"]["path"]),
+                           f, l)
+    r.stats["fs_queries"] = n
+    r.inst(bodies_examined=sum(1 for b in crate.bodies if b.path.startswith("export::") or b.path.startswith("TS::")), filesystem_queries=n,
+           note="expected count is zero; the positive examples are seeds C05_g, C05_i, C06_j, C13_i in the self-test corpus")
+    r.floor = 1
+    return r
+
+
+def entry_reaches_writer_rule(crate, prop, rule="C11.R10"):
+    """an export request is carried out or fails: there is no third outcome"""
+    r = Result(rule, "every non-error path through TS::export, export_into and export_to reaches the next stage (export_to / export_to / export_and_merge), and export_all_into reaches export_recursive: no condition can turn an export request into a silent `Ok(())`")
+    STAGES = [("TS::export", r"export::export_to$"), ("export::export_into", r"export::export_to$"), ("export::export_to", r"export::export_and_merge$"),
+              ("export::recursive_export::export_all_into", r"export::recursive_export::export_recursive$"), ("TS::export_all", r"export_all_into$"), ("TS::export_all_to", r"export_all_into$")]
+    for path, nxt in STAGES:
+        b = crate.body(path)
+        if b is None:
+            r.fail(prop, "anchor-missing " + path, "not found")
+            continue
+        stage = {blk for blk, t in b.calls() if not b.is_cleanup(blk) and fn_matches(t, nxt)}
+        errs = {blk for blk, t in b.calls() if not b.is_cleanup(blk) and fn_matches(t, r"FromResidual")}
+        rets = [blk for blk in range(b.n) if not b.is_cleanup(blk) and b.term(blk)["k"] == "return"]
+        ok = bool(stage) and b.all_paths_pass(0, stage | errs, rets)
+        r.inst(fn=path, next_stage=nxt.strip("$"), on_every_success_path=ok)
+        if not ok:
+            r.fail(prop, "export-request-dropped %s" % path,
+                   "a path through %s returns without reaching %s and without an error: the type is reported as exported although nothing was written or recorded" % (path, nxt.strip("$").split("::")[-1]),
+                   b.file(), b.line())
+    r.floor = 6
+    return r
+
+
+def normalisation_owner_rule(crate, prop, rule="C17.R9"):
+    """`..` is resolved in one place, which also rejects a path that climbs above the root"""
+    r = Result(rule, "path components are taken apart (components / pop / push of single components) only inside export::path and import_path: no other function resolves `.`/`..` on its own, so every path reaches path::absolute with its `..` still in it and the root check cannot be bypassed")
+    OWNERS = ("export::path::", "export::import_path")
+    n = 0
+    for b in crate.bodies:
+        p0 = re.sub(r"::\{closure#\d+\}", "", b.path)
+        if not (p0.startswith("export::") or p0.startswith("TS::") or p0.startswith("Dependency::")):
+            continue
+        for blk, t in b.calls():
+            if b.is_cleanup(blk) or not t.get("fn"):
+                continue
+            if fn_matches(t, r"Path::components$", r"PathBuf::pop$", r"Path::ancestors$", r"Path::strip_prefix$", r"Path::iter$"):
+                n += 1
+                ok = p0.startswith(OWNERS)
+                f, l = M.user_span(t["span"])
+                r.inst(fn=b.path, callee=t["fn"]["path"], owner=ok)
+                if not ok:
+                    r.fail(prop, "path-taken-apart-outside-normaliser %s -> %s" % (p0, t["fn"]["path"].split("::")[-1]),
+                           "%s manipulates path components itself (%s): a `..` it resolves or clamps never reaches path::absolute, which is where a path climbing above the root is rejected" % (p0, t["fn"]["path"]),
+                           f, l)
+    r.stats["component_operations"] = n
+    r.floor = 1
+    return r
+
+
+def import_prefix_rule(crate, prop, rule="C03.R9"):
+    """`./x` and `.x` differ by more than a character: the second is a bare module specifier"""
+    r = Result(rule, "import_path decides on the `./` prefix by looking at the first *component* of the relative path (a normal component gets `./`, `..` does not), not at the first character of its text: a directory called `.internal` is a normal component")
+    b = crate.body("export::import_path")
+    if b is None:
+        r.fail(prop, "anchor-missing import_path", "not found")
+        return r
+    comp = [blk for blk, t in b.calls() if not b.is_cleanup(blk) and fn_matches(t, r"Path::components$")]
+    textual = [(blk, t) for blk, t in b.calls() if not b.is_cleanup(blk) and fn_matches(t, r"str::<impl str>::starts_with$", r"str::<impl str>::strip_prefix$")
+               and ((op_const(t["args"][1]) or {}).get("str") in (".", "..", "../") or (op_const(t["args"][1]) or {}).get("char") == "." or "'.'" in json.dumps(t["args"][1]))]
+    r.inst(fn=b.path, inspects_first_component=bool(comp), textual_dot_tests=len(textual))
+    if not comp or textual:
+        f, l = M.user_span(textual[0][1]["span"]) if textual else (b.file(), b.line())
+        r.fail(prop, "import-prefix-by-text export::import_path",
+               "the `./` prefix is decided from the text of the path (starts with `.`): a dependency in a dot-named directory (`.internal/Hidden.ts`) is imported as `\".internal/Hidden\"`, a bare specifier that names no file the export wrote", f, l)
+    r.floor = 1
     return r
